@@ -60,7 +60,7 @@ theorem C08_aligned_loop (fuel : Nat) (s : St) (h : Aligned m s) : Aligned m (lo
 is aligned whatever the state before. -/
 theorem C08_aligned_init (stateInfo : Bool) (s : St) :
     Aligned m (initProject m stateInfo true s) := by
-  constructor <;> (try intro x hx) <;> cases stateInfo <;> simp [initProject, clearLogs, *]
+  constructor <;> (try intro x hx) <;> cases stateInfo <;> simp [initProject, clearLogs, Logs.empty]
 
 /-- `initialize(state_info, log_info=False)` touches neither logs nor clock. -/
 theorem C08_aligned_init_keep (stateInfo : Bool) (s : St) (h : Aligned m s) :
